@@ -48,7 +48,25 @@ impl Family for C03Family {
             Backend::Ref
         };
         let opts = HistOpts { faults: faulty, concurrent, backend, weights: [3, 5, 1, 3], min_ops: 2, ..Default::default() };
-        let c = gen_history(&mut r, &opts);
+        let mut c = gen_history(&mut r, &opts);
+        // one strict reference-store run in ten: the store has an item type of its own and some held entries
+        // do not convert into a passkey; CTAP-level assertions only. An entry that does not convert is not an
+        // eligible credential.
+        if !faulty && backend == Backend::Ref && !c.prelude.is_empty() && r.chance(1, 10) {
+            c.wrap = Wrap::Bare;
+            c.unconvertible = if r.bool() { (0..c.prelude.len() as u32).collect() } else { (0..c.prelude.len() as u32).filter(|_| r.bool()).collect() };
+            if c.unconvertible.is_empty() {
+                c.unconvertible.push(0);
+            }
+            let rp = c.prelude[0].rp_id.clone();
+            for a in c.actors.iter_mut() {
+                a.ops.retain(|o| matches!(o.kind, OpKind::GetAssertion(_)));
+                let mut s = crate::gen::gen_ga(&mut r, &rp);
+                s.allow = if r.bool() { None } else { Some(vec![IdRef::NthOfRp(0)]) };
+                s.up = true;
+                a.ops.push(crate::gen::plain_op(OpKind::GetAssertion(s)));
+            }
+        }
         Scenario { family: "C03".into(), batch: if faulty { "faults" } else { "strict" }.into(), seed: master, index, body: Body::Ceremony(c) }
     }
 
@@ -56,7 +74,7 @@ impl Family for C03Family {
         let c = ceremony_of(scn);
         let rec = run_and_measure(c, stats);
         let mut j = Judge::new("C03", scn, &rec);
-        for p in ["assertion_with_credential_registered_in_run", "assertion_with_allow_list_subset", "assertion_without_allow_list", "no_eligible_credential_with_consent", "assertion_succeeded_under_faults", "caller_supplied_hash", "same_user_handle_on_two_rps", "map_store_served_another_rps_credential"] {
+        for p in ["assertion_with_credential_registered_in_run", "assertion_with_allow_list_subset", "assertion_without_allow_list", "no_eligible_credential_with_consent", "assertion_succeeded_under_faults", "caller_supplied_hash", "same_user_handle_on_two_rps", "map_store_served_another_rps_credential", "store_with_unconvertible_entries"] {
             stats.declare_probe(p);
         }
         if rec.panic.is_some() || rec.outcome != Outcome2::Done {
@@ -123,7 +141,11 @@ impl Family for C03Family {
             // consent given, nothing eligible => credential-not-found, no signature
             if strict && spec.faults.is_empty() && spec.cancel_after.is_none() {
                 let allow = o.resolved.allow.as_ref().filter(|l| !l.is_empty());
-                let eligible = o.before.iter().filter(|s| s.rp_id == rp && allow.is_none_or(|l| l.contains(&s.id))).count();
+                let sealed: Vec<&Vec<u8>> = c.unconvertible.iter().filter_map(|i| c.prelude.get(*i as usize)).map(|p| &p.id).collect();
+                if !sealed.is_empty() {
+                    stats.probe("store_with_unconvertible_entries");
+                }
+                let eligible = o.before.iter().filter(|s| s.rp_id == rp && allow.is_none_or(|l| l.contains(&s.id)) && !sealed.contains(&&s.id)).count();
                 let mut asked = None;
                 let mut consent = false;
                 for e in rec.events_of(o.actor, o.idx) {
